@@ -26,6 +26,7 @@ EVIDENCE = os.environ.get("VK_EVIDENCE", os.path.join(ROOT, "evidence"))
 REPLAYS = os.environ.get("VK_REPLAYS", os.path.join(ROOT, "replays"))
 KNOWN = os.path.join(ROOT, "KNOWN_FINDINGS.txt")
 BUILD = os.environ.get("VK_BUILD") or os.path.join(ROOT, ".build", "run-%d" % os.getpid())   # per process: checks may run concurrently
+LAST_VIOLATIONS = {}
 XSIM_PROPS = {"C01", "C07", "C08", "C09", "C10", "C11", "C18"}
 XREG_PROPS = {"C06", "C11", "C16"}
 # parts of a claim that only a stand-in decides (so that its unavailability is never silent)
@@ -339,8 +340,25 @@ def main(argv=None):
     args = ap.parse_args(argv)
     tier = args.tier if args.tier in ("quick", "thorough") else "quick"
     if args.replay:
-        print(open(args.replay).read())
-        return 0
+        # show the stored counterexample / verifier output, then re-run the property on the current tree and say whether
+        # the named obligation is still refuted (exit 1) or not (exit 0)
+        text = open(args.replay).read()
+        print(text)
+        m_oid = re.search(r"^failed obligation: (\S+)", text, flags=re.M)
+        m_prop = re.search(r"^property: (\w+)", text, flags=re.M)
+        if not (m_oid and m_prop):
+            return 0
+        from . import kani as K
+        tmpls = unit_templates()
+        log("---- re-running %s on the current tree ----" % m_prop.group(1))
+        try:
+            evaluate(m_prop.group(1), tier, tmpls, {}, {})
+        finally:
+            if not os.environ.get("VK_BUILD") and not os.environ.get("VK_KEEP_BUILD"):
+                shutil.rmtree(BUILD, ignore_errors=True)
+        still = m_oid.group(1) in LAST_VIOLATIONS.get(m_prop.group(1), [])
+        log("replay: obligation %s is %s on the current tree" % (m_oid.group(1), "STILL REFUTED" if still else "not refuted"))
+        return 1 if still else 0
     from . import kani as K
     tmpls = unit_templates()
     props = args.props
@@ -566,6 +584,7 @@ def evaluate(prop, tier, tmpls, unit_cache, kani_cache):
         log("KNOWN-FINDING: property=%s %s [%s]" % (prop, k["what"], f.oid))
     for ln in fixed:
         pass
+    LAST_VIOLATIONS[prop] = [f.oid for f, _ in violations]
     if violations:
         for f, r in violations:
             path = write_replay(prop, f, r)
